@@ -195,4 +195,56 @@ IReshape(x, newshape) ==
       b == FoldLeft(LAMBDA acc, e : RFuse(acc, e), a, m.fuse)
   IN FoldLeft(LAMBDA acc, e : RExpand(acc, e), b, m.expand)
 
+---------------------------------------------------------------------------
+\* decompositions (linalg.py): everything except the numbers LAPACK produces - which blocks exist and in which
+\* order, their shapes, the bond index (direction of the second leg, charge table sorted, one entry per block), the
+\* charges, the sign tables and the labels of the factors.  A "skeleton" block has no data.
+SkelBlk(s, shape) == [s |-> s, shape |-> shape]
+MinOf(a, b) == IF a < b THEN a ELSE b
+BondIndex(x) ==
+  [dual |-> x.ix[2].dual,
+   cm |-> SetToSortSeq({[c |-> x.blocks[i].s[2], d |-> MinOf(x.blocks[i].shape[1], x.blocks[i].shape[2])] : i \in 1..Len(x.blocks)},
+                       LAMBDA u, w : ChargeLT(u.c, w.c)),
+   sub |-> <<>>]
+ConjPlain(ix) == [dual |-> ~ix.dual, cm |-> ix.cm, sub |-> <<>>]
+\* the left factor of qr / svd: x.copy_with(indices = (x.ix[1], bond), blocks) - keeps charge, sign table and labels
+LeftFactorSkel(x) ==
+  [x EXCEPT !.ix = <<x.ix[1], BondIndex(x)>>,
+            !.blocks = [i \in 1..Len(x.blocks) |->
+                          SkelBlk(x.blocks[i].s, <<x.blocks[i].shape[1], MinOf(x.blocks[i].shape[1], x.blocks[i].shape[2])>>)]]
+\* the right factor: a fresh array of charge zero on (conj bond, x.ix[2]); fermionic: sign flip of the odd charges when the
+\* inner leg is a bra
+RightFactorSkel(x) ==
+  LET bond == BondIndex(x)
+      blocks == [i \in 1..Len(x.blocks) |->
+                   SkelBlk(<<x.blocks[i].s[2], x.blocks[i].s[2]>>,
+                           <<MinOf(x.blocks[i].shape[1], x.blocks[i].shape[2]), x.blocks[i].shape[2]>>)]
+      odd == SelectSeq(blocks, LAMBDA b : Parity(x.sym, b.s[1]) = 1)
+  IN [x EXCEPT !.ix = <<ConjPlain(bond), x.ix[2]>>, !.charge = Zero, !.blocks = blocks, !.oddpos = <<>>,
+               !.phases = IF IsFermi(x) /\ ~bond.dual THEN [i \in 1..Len(odd) |-> [s |-> odd[i].s, p |-> -1]] ELSE <<>>]
+\* singular values / eigenvalues: one vector block per matrix block, keyed by the column charge, in block order
+ValuesSkel(x) == [i \in 1..Len(x.blocks) |-> [c |-> x.blocks[i].s[2], shape |-> <<MinOf(x.blocks[i].shape[1], x.blocks[i].shape[2])>>]]
+\* eigenvectors: a.copy_with(blocks) of the SYNCHRONISED array (fermionic), same sectors and shapes
+EighVectorsSkel(a) ==
+  LET y == IF IsFermi(a) THEN IPhaseSync(a) ELSE a IN
+  [y EXCEPT !.blocks = [i \in 1..Len(y.blocks) |-> SkelBlk(y.blocks[i].s, y.blocks[i].shape)]]
+\* solve: b.copy_with(blocks, indices = (conj a.ix[2]), charge = c_b - c_a) on the synchronised operands; one block per
+\* block of a whose row charge b stores; fermionic: sign flip on odd charges when the solution's leg is a bra
+SolveSkel(a0, b0) ==
+  LET a == IF IsFermi(a0) THEN IPhaseSync(a0) ELSE a0
+      b == IF IsFermi(b0) THEN IPhaseSync(b0) ELSE b0
+      used == SelectSeq(a.blocks, LAMBDA blk : \E j \in 1..Len(b.blocks) : b.blocks[j].s = <<blk.s[1]>>)
+      blocks == [i \in 1..Len(used) |-> SkelBlk(<<used[i].s[2]>>, <<used[i].shape[2]>>)]
+      ix == [dual |-> ~a.ix[2].dual, cm |-> a.ix[2].cm, sub |-> a.ix[2].sub]
+      odd == SelectSeq(blocks, LAMBDA blk : Parity(a.sym, blk.s[1]) = 1)
+  IN [b EXCEPT !.ix = <<ix>>, !.charge = Combine(a.sym, b.charge, Neg(a.sym, a.charge)), !.blocks = blocks,
+               !.phases = IF IsFermi(a) /\ ix.dual THEN [i \in 1..Len(odd) |-> [s |-> odd[i].s, p |-> -1]] ELSE <<>>]
+\* a recorded array has the skeleton m
+SkelEq(m, r) ==
+  /\ r.ix = m.ix /\ r.charge = m.charge /\ r.sym = m.sym /\ r.kind = m.kind
+  /\ [i \in 1..Len(r.blocks) |-> SkelBlk(r.blocks[i].s, r.blocks[i].shape)] = m.blocks
+  /\ {q \in SeqRange(r.phases) : q.p = -1} = {q \in SeqRange(m.phases) : q.p = -1}
+  /\ r.oddpos = m.oddpos
+VecSkelEq(m, r) == [i \in 1..Len(r.blocks) |-> [c |-> r.blocks[i].c, shape |-> r.blocks[i].shape]] = m
+
 =============================================================================
